@@ -40,6 +40,7 @@ class Result:
         self.rules: dict = {}          # rule id -> one-line description
         self.t0 = time.time()
         self.floors: List[tuple] = []  # (rule, matched, floor)
+        self.irrelevant_prefixes: List[str] = []   # rule instances of shared row sets that do not bear on this property
 
     # -- recording -----------------------------------------------------------------------------
     def rule(self, rid: str, text: str):
@@ -55,6 +56,8 @@ class Result:
         """A violated obligation.  `key` identifies it for the known-findings file: rule + construct,
         never a line number."""
         k = key or f"{rule}|{where}|{what}"
+        if any(k.startswith(p) for p in self.irrelevant_prefixes):
+            return
         self.obligations.append(Obligation(rule, where, what, 'violated', detail, k, line))
 
     def check(self, cond: bool, rule, where, what, detail='', key=None, line=None, fail_detail=None):
